@@ -43,6 +43,7 @@ class Ctx:
     """What a rule module gets: the model, the tier, and the obligation sink."""
 
     def __init__(self, prop: str, model: Model, tier: str):
+        self.floor_failures = []
         self.prop = prop
         self.model = model
         self.tier = tier
@@ -72,9 +73,11 @@ class Ctx:
         hand must not pass silently."""
         got = self.counters.get(name, 0)
         if got < minimum:
-            raise AnalysisError(
-                f"vacuity guard: {name} matched {got} site(s), expected at least {minimum}"
-                + (f" ({what})" if what else "")
+            # deferred: the remaining rules still run (a change that removes an instance usually also
+            # violates a rule further down, and that is the more useful report); the run ends as an
+            # analysis error unless a violation was found
+            self.floor_failures.append(
+                f"vacuity guard: {name} matched {got} site(s), expected at least {minimum}" + (f" ({what})" if what else "")
             )
 
     def note(self, text: str):
